@@ -55,6 +55,12 @@ class Unk(object):
     def __invert__(self):
         return Unk(('not', self.expr))
 
+    def any(self, *a, **k):
+        return self
+
+    def all(self, *a, **k):
+        return self
+
     def comparisons(self):
         """All ('cmp', op, a, b) leaves."""
         out = []
@@ -222,31 +228,31 @@ class Arr(object):
 
     def clip(self, min=None, max=None, **kw):
         from . import libmodels
-        return libmodels.CURRENT.np_clip(self, min, max, **kw)
+        return libmodels.CURRENT.np.clip(self, min, max, **kw)
 
     def sum(self, axis=None, **kw):
         from . import libmodels
-        return libmodels.CURRENT.np_sum(self, axis=axis)
+        return libmodels.CURRENT.np.sum(self, axis=axis)
 
     def any(self, axis=None, **kw):
         from . import libmodels
-        return libmodels.CURRENT.np_any(self, axis=axis)
+        return libmodels.CURRENT.np.any(self, axis=axis)
 
     def all(self, axis=None, **kw):
         from . import libmodels
-        return libmodels.CURRENT.np_all(self, axis=axis)
+        return libmodels.CURRENT.np.all(self, axis=axis)
 
     def max(self, axis=None, **kw):
         from . import libmodels
-        return libmodels.CURRENT.np_max(self, axis=axis)
+        return libmodels.CURRENT.np.max(self, axis=axis)
 
     def min(self, axis=None, **kw):
         from . import libmodels
-        return libmodels.CURRENT.np_min(self, axis=axis)
+        return libmodels.CURRENT.np.min(self, axis=axis)
 
     def dot(self, other):
         from . import libmodels
-        return libmodels.CURRENT.np_dot(self, other)
+        return libmodels.CURRENT.np.dot(self, other)
 
     def astype(self, dtype, **kw):
         return self.copy()
